@@ -33,6 +33,23 @@ Proof.
 Qed.
 Print Assumptions C15_empty_neutral_plain.
 
+(* Safety marks are data-neutral (tag-free histories): whatever explicit !unsafe mark (d_sf), inherited mark (d_isf),
+   source-level safety (d_ds) and source file each document carries on ALL of its nodes, the merged data is the same -
+   e.g. marking a stage root !unsafe, or adding the source with safe=False. (Marks on inner nodes only, and !new marks,
+   are decided by the oracle.) *)
+Theorem C15_unsafe_marks_neutral_plain : forall e d0 rest d0' rest',
+  forallb (fun d => is_PD (d_data d)) (d0 :: rest) = true ->
+  map d_data (d0 :: rest) = map d_data (d0' :: rest') ->
+  same_outcome (flatten e (map load_plain (d0 :: rest))) (flatten e (map load_plain (d0' :: rest'))).
+Proof.
+  intros e d0 rest d0' rest' H E. cbn [map] in E. injection E as E0 Er.
+  apply flatten_same_fold; [exact H| |now rewrite E0, Er].
+  assert (G : forall l l', map d_data l = map d_data l' -> forallb (fun d => is_PD (d_data d)) l = forallb (fun d => is_PD (d_data d)) l').
+  { induction l as [|a l IH]; intros [|b l'] Hm; cbn in *; try discriminate; [reflexivity|]. injection Hm as Ha Hl. now rewrite Ha, (IH l' Hl). }
+  rewrite <- (G (d0 :: rest) (d0' :: rest')); [exact H|]. cbn [map]. now rewrite E0, Er.
+Qed.
+Print Assumptions C15_unsafe_marks_neutral_plain.
+
 (* the reference update is idempotent *)
 Theorem C15_update_idempotent : forall d, pwf d -> forall a r, upd a d = Ok r -> upd r d = Ok r.
 Proof. exact upd_idempotent. Qed.
